@@ -38,6 +38,24 @@ def floatFmt (x : Float) : Option String :=
   | some d => Cmp.fmtGo (.f64 d)
   | none => none
 
+/-- exact `math.Mod` on finite doubles: both operands are dyadic rationals; the remainder of the
+    scaled integers is exactly representable (it has at most 53 significant bits) -/
+def floatFmod (x y : Float) : Option Float :=
+  match floatParts x, floatParts y with
+  | some (sx, mx, ex), some (_, my, ey) =>
+    if my == 0 then none
+    else if mx == 0 then some x
+    else
+      let e := if ex ≤ ey then ex else ey
+      let X := mx * 2 ^ (ex - e).toNat
+      let Y := my * 2 ^ (ey - e).toNat
+      let r := X % Y
+      if r == 0 then some (if sx then -0.0 else 0.0)
+      else
+        let mag := (Float.ofNat r).scaleB e
+        some (if sx then -mag else mag)
+  | _, _ => none
+
 instance : Num Float where
   add := (· + ·)
   sub := (· - ·)
@@ -46,6 +64,7 @@ instance : Num Float where
   neg := fun a => -a
   lt := fun a b => a < b
   eq := fun a b => a == b
+  fmod := floatFmod
   ofInt := Float.ofInt
   toInt? := fun x =>
     match floatToInt? x with
